@@ -73,6 +73,38 @@ func schemaList(s *jsonschema.Schema) []*jsonschema.Schema {
 	return out
 }
 
+// schemaChildren lists the direct subschemas of s (all schema-bearing fields, by reflection).
+func schemaChildren(s *jsonschema.Schema) []*jsonschema.Schema {
+	var out []*jsonschema.Schema
+	v := reflect.ValueOf(s).Elem()
+	for i := 0; i < v.NumField(); i++ {
+		switch f := v.Field(i).Interface().(type) {
+		case *jsonschema.Schema:
+			if f != nil {
+				out = append(out, f)
+			}
+		case []*jsonschema.Schema:
+			for _, e := range f {
+				if e != nil {
+					out = append(out, e)
+				}
+			}
+		case map[string]*jsonschema.Schema:
+			ks := make([]string, 0, len(f))
+			for k := range f {
+				ks = append(ks, k)
+			}
+			sort.Strings(ks)
+			for _, k := range ks {
+				if f[k] != nil {
+					out = append(out, f[k])
+				}
+			}
+		}
+	}
+	return out
+}
+
 func applyC20Mut(root *jsonschema.Schema, m c20Mut) {
 	nodes := schemaList(root)
 	if len(nodes) == 0 {
